@@ -280,3 +280,43 @@ UNITS += [
        calls={'PlanT__clearTasks': 'contract'}, need_consts=['TaskListT.CAPACITY', 'PlanT.TASK_CAPACITY', 'PlanT.STATE_COUNT', 'TasksBits.CAPACITY'],
        consts=dict(PL_CONSTS, TasksBits__NCapacity=('expr', 'TL___sizeof_Ts'))),
 ]
+
+# ---- the const view: CPlanT::Iterator walks the same chain (read-only: nothing of the plan in any frame)
+CIT = r'^ffsm2::detail::CPlanT<.*>::Iterator$'
+def cit_unit(id_, target, fn, contract):
+    return pl(id_, target, fn, contract, cls=CIT, need_consts=['TaskListT.CAPACITY', 'CPlanT.TASK_CAPACITY'])
+CIT_SELF = [fresh('self'), fresh('self->_plan', '*self->_plan'), fresh(IPD, '*' + IPD), 'self->_plan->_bounds == &%s->tasksBounds' % IPD, 'pl_wf(%s)' % IPD, 'CPlanT__TASK_CAPACITY == ' + CAP, 'g_k < %d' % CAPMAX]
+UNITS += [
+    cit_unit('CPlan.Iterator.ctor', dict(kind='ctor', name='Iterator', nparams=1), '@target', dict(
+        requires=[fresh('self'), fresh('plan'), fresh('plan->_planData', '*plan->_planData'), 'plan->_bounds == &plan->_planData->tasksBounds', 'pl_wf(plan->_planData)', 'CPlanT__TASK_CAPACITY == ' + CAP],
+        assigns=['*self'],
+        ensures=[('C10', 'self->_plan == plan && self->_curr == pl_nth(plan->_planData, 0) && self->_next == pl_nth(plan->_planData, 1)')])),
+    cit_unit('CPlan.Iterator.op_bool', dict(name='operator bool', nparams=0), '@target', dict(
+        requires=CIT_SELF + ['self->_curr == pl_nth(%s, g_k)' % IPD], assigns=[],
+        ensures=[('C10', '__CPROVER_return_value == (g_k < %s->tasks._count)' % IPD)])),
+    cit_unit('CPlan.Iterator.op_inc', dict(name='operator++', nparams=0), '@target', dict(
+        requires=CIT_SELF + ['self->_next == pl_nth(%s, g_k)' % IPD], assigns=['self->_curr', 'self->_next'],
+        ensures=[('C10', 'self->_curr == pl_nth(%s, g_k) && self->_next == pl_nth(%s, (uint8_t)(g_k + 1))' % (IPD, IPD))])),
+    cit_unit('CPlan.Iterator.op_arrow', dict(name='operator->', nparams=0), '@target', dict(
+        requires=CIT_SELF + ['g_k < %s->tasks._count' % IPD, 'self->_curr == pl_nth(%s, g_k)' % IPD], assigns=[],
+        ensures=[('C10', '__CPROVER_return_value == &%s->tasks._items[pl_nth(%s, g_k)]' % (IPD, IPD))])),
+    cp_unit('CPlan.begin', dict(name='begin', nparams=0), '@target', dict(requires=CP_SELF, assigns=[],
+            ensures=[('C10', '__CPROVER_return_value._plan == self && __CPROVER_return_value._curr == pl_nth(%s, 0) && __CPROVER_return_value._next == pl_nth(%s, 1)' % (CPD, CPD))])),
+]
+UNITS += [
+    it_unit('Iterator.op_arrow', IT, dict(name='operator->', nparams=0), '@target', dict(
+        requires=IT_SELF + ['g_k < %s->tasks._count' % IPD, 'self->_curr == pl_nth(%s, g_k)' % IPD], assigns=[],
+        ensures=[('C10', '__CPROVER_return_value == &%s->tasks._items[pl_nth(%s, g_k)]' % (IPD, IPD))])),
+    pl('begin', dict(name='begin', nparams=0), '@target', dict(
+        requires=PL_SELF + [WF, '%s == %s' % (TC, CAP)], assigns=[],
+        ensures=[('C10', '__CPROVER_return_value._plan == self && __CPROVER_return_value._curr == pl_nth(%s, 0) && __CPROVER_return_value._next == pl_nth(%s, 1)' % (PD, PD))])),
+]
+# the precondition every PlanT / CPlanT unit starts from (the view refers to the plan data and to *its* bounds) is what the constructors establish
+UNITS += [
+    pl('ctor', dict(kind='ctor', name='PlanT', nparams=1), '@target', dict(
+        requires=[fresh('self'), '{fresh:{p0}}'], assigns=['*self'],
+        ensures=[('C10', 'self->_planData == {p0} && self->_bounds == &{p0}->tasksBounds')])),
+    cp_unit('CPlan.ctor', dict(kind='ctor', name='CPlanT', nparams=1), '@target', dict(
+        requires=[fresh('self'), '{fresh:{p0}}'], assigns=['*self'],
+        ensures=[('C10', 'self->_planData == {p0} && self->_bounds == &{p0}->tasksBounds')])),
+]
